@@ -214,5 +214,6 @@ def main (args : List String) : IO Unit :=
   | ["utils"] => do utils; utils2
   | ["io"] => ioProbes
   | ["base"] => baseProbes
+  | ["score"] => pure ()      -- (abstract estimator: no probe lattice; the C12 correspondence and oracle search the implementation)
   | ["chain"] => pure ()      -- (abstract steps: no probe lattice; the C06 correspondence and oracle search the implementation)
   | _ => IO.println "usage: GenEval kernels|coords"
